@@ -13,6 +13,7 @@ pub mod pushcond;
 pub mod pushops;
 pub mod redact;
 pub mod sign;
+pub mod stateres;
 pub mod uri;
 pub mod wire;
 pub mod xmatrix;
@@ -47,6 +48,7 @@ pub fn run(name: &str, tier: &str) -> Option<Value> {
         "xmatrix" => xmatrix::run(tier).to_json(),
         "wire" => wire::run(tier).to_json(),
         "sign" => sign::run(tier).to_json(),
+        "stateres" => stateres::run(tier).to_json(),
         "uri" => uri::run(tier).to_json(),
         _ => return None,
     })
